@@ -14,9 +14,9 @@ Definition obs_eqb (a b : obs) : bool :=
   | _, _ => false
   end.
 
-Definition run_C25 (n : nat) (ops : list op) : list obs := run_from (init n) ops.
-Definition defect_C25_values_leaked_on_drop (n : nat) (ops : list op) : bool := leaks_from (init n) ops.
-Definition no_defect_C25 (n : nat) (ops : list op) : bool := negb (defect_C25_values_leaked_on_drop n ops).
+Definition run_C25 (n : nat) (ops : list op) : list obs := run_from true (init n) ops.
+(** the code before the repair of finding #27 (no [Drop for CoroutineLocal]) *)
+Definition old_run_C25 (n : nat) (ops : list op) : list obs := run_from false (init n) ops.
 
 (** ---- well-formed histories: every call names one of the [n] coroutines, not yet dropped, and
     the identities given to stored values are pairwise distinct. Decidable from the input alone. *)
@@ -52,13 +52,6 @@ Definition sp_clear (f : spec) (c : Z) : spec :=
 Definition op_keys (o : op) : list Z :=
   match o with Put _ k _ _ | Get _ k | GetMut _ k _ | Remove _ k => [k] | DropCo _ => [] end.
 Definition keys_of (ops : list op) : list Z := flat_map op_keys ops.
-
-Fixpoint insert_sorted (x : Z) (l : list Z) : list Z :=
-  match l with
-  | [] => [x]
-  | y :: l' => if x <=? y then x :: l else y :: insert_sorted x l'
-  end.
-Definition sortZ (l : list Z) : list Z := fold_right insert_sorted [] l.
 
 Fixpoint nodupZ (l : list Z) : list Z :=
   match l with
